@@ -1,6 +1,7 @@
 package workers
 
 import (
+	"io"
 	"fmt"
 	"math/rand"
 	"strings"
@@ -375,9 +376,25 @@ func c18Server(r *vf.Run, t *testing.T, id string, rng *rand.Rand) {
 	}
 }
 
+// gatedReader is a request body whose first Read waits for the gate.
+type gatedReader struct {
+	gate chan struct{}
+	b    []byte
+}
+
+func (g *gatedReader) Read(p []byte) (int, error) {
+	<-g.gate
+	if len(g.b) == 0 {
+		return 0, io.EOF
+	}
+	n := copy(p, g.b)
+	g.b = g.b[n:]
+	return n, nil
+}
+
 func c18Client(r *vf.Run, t *testing.T, id string, rng *rand.Rand) {
 	nset := 1 + rng.Intn(6)
-	probe := []string{"none", "frame-one-byte-over", "push-promise", "invalid-setting", "concurrency", "frame-size-lowered-mid-body", "frame-size-lowered-mid-body"}[rng.Intn(7)]
+	probe := []string{"none", "frame-one-byte-over", "push-promise", "invalid-setting", "concurrency", "frame-size-lowered-mid-body", "frame-size-lowered-mid-body", "acks-while-the-write-loop-is-busy", "push-promise"}[rng.Intn(9)]
 	var triggers []string
 	var kinds []string
 	replay := map[string]any{"role": "client", "settings_frames": nset, "probe": probe}
@@ -599,12 +616,53 @@ func c18Client(r *vf.Run, t *testing.T, id string, rng *rand.Rand) {
 						fail("own-max-frame-size-not-enforced", fmt.Sprintf("the client advertises MAX_FRAME_SIZE %d (default when absent) but accepted a DATA frame of %d bytes and reported success", lim, lim+1))
 					}
 				}
+			case "acks-while-the-write-loop-is-busy":
+				// the client's write loop is parked inside the Read of a streamed request body while 2-4 SETTINGS frames arrive:
+				// every one of them is acknowledged, one ACK each, once the loop is back
+				gateR := &gatedReader{gate: make(chan struct{}), b: make([]byte, 3000)}
+				tag := fmt.Sprintf("%s.gated", id)
+				calls = append(calls, e.Do(tag, func(req *fasthttp.Request) {
+					req.SetRequestURI("https://s.example/" + tag)
+					req.Header.SetMethod("POST")
+					req.Header.Add("x-vtag", tag)
+					req.SetBodyStream(gateR, -1)
+				}))
+				rt.Wait()
+				k := 2 + rng.Intn(3)
+				for i := 0; i < k; i++ {
+					ss := []wire.Setting{{ID: 3, Val: uint32(50 + i)}}
+					ps.apply(ss)
+					e.P.Write(rt.SettingsFrame(ss...))
+					sent++
+					if rng.Intn(2) == 0 {
+						rt.Wait()
+					}
+				}
+				rt.Wait()
+				close(gateR.gate)
+				rt.Wait()
+				checkQ(fmt.Sprintf("after %d SETTINGS frames that arrived while the write loop was reading a request body", k))
+				r.Inc("settings_frames_received_while_the_write_loop_was_parked", int64(k))
+				answerAll()
+				answerAll()
 			case "push-promise":
 				request(10, 0)
 				rt.Wait()
 				seen := e.RequestsSeen()
 				if len(seen) > 0 {
 					sid := seen[len(seen)-1].Stream
+					// where the promise lands: on the request in flight, on a stream whose response has just ended, on a stream
+					// the client never opened, or on stream 0 - ENABLE_PUSH=0 makes each of them a connection error (8.2, 6.6)
+					where := rng.Intn(4)
+					replay["push_promise_on"] = []string{"the stream in flight", "a stream that has been answered", "a stream never opened", "stream 0"}[where]
+					switch where {
+					case 1:
+						answerAll()
+					case 2:
+						sid += 40
+					case 3:
+						sid = 0
+					}
 					e.P.Write(wire.Frame(nil, wire.TPushPromise, wire.FEndHeaders, sid, append(wire.U32(2), e.P.EncodeBlock([]F{{Name: ":method", Value: "GET"}}, nil)...), -1))
 					rt.Wait()
 					before := len(e.RequestsSeen())
